@@ -56,10 +56,9 @@ def run(tier, seed):
     violations, n, unsupported = [], 0, 0
     saved_env = os.environ.get('XMLSEC1_STANDIN_KEYS')
     try:
-        binary = os.path.join(tmp, 'xmlsec1')
-        with open(binary, 'w') as f:
-            f.write('#!/bin/sh\nexec "%s" -S -E "%s" "$@"\n' % (sys.executable, os.path.join(here, 'xmlsec1_standin.py')))
-        os.chmod(binary, os.stat(binary).st_mode | stat.S_IXUSR)
+        binary = os.path.join(here, 'xmlsec1')       # committed wrapper script: runs xmlsec1_standin.py
+        saved_py = os.environ.get('XMLSEC1_STANDIN_PYTHON')
+        os.environ['XMLSEC1_STANDIN_PYTHON'] = sys.executable
         pairs = {'idp': ('test.key', 'test.pem'), 'sp': ('test_1.key', 'test_1.crt'), 'other': ('test_2.key', 'test_2.crt')}
         os.environ['XMLSEC1_STANDIN_KEYS'] = json.dumps(dict(
             (os.path.join(keys, k), tool.cert_identity(os.path.join(keys, c))) for k, c in pairs.values()))
@@ -223,6 +222,11 @@ def run(tier, seed):
             except Exception:
                 pass
     finally:
+        if 'saved_py' in locals():
+            if saved_py is None:
+                os.environ.pop('XMLSEC1_STANDIN_PYTHON', None)
+            else:
+                os.environ['XMLSEC1_STANDIN_PYTHON'] = saved_py
         if saved_env is None:
             os.environ.pop('XMLSEC1_STANDIN_KEYS', None)
         else:
